@@ -10,11 +10,12 @@
        counter it waits on is exactly the number of such deliveries (C03_wait_blocks_only_on_running_deliveries);
      - the only instructions that can block at all are taking a Sequential handler's mutex, taking the store mutex,
        Wait / Shutdown's waiter with deliveries in flight, and Shutdown's select (C03_only_these_block);
-   these combine into C03_progress: some goroutine can always step, under two hypotheses about the state (lock waits
-   acyclic - the documented exception is a cycle -, nobody calls Wait/Shutdown from inside a delivery or while holding
-   a handler mutex); the documented exception is exhibited
-   (C03_self_delivery_exception).  NOT proved: that the two hypotheses are invariants of the programs the property
-   admits (they are conditions on the state, checked per observed run by the deadlock oracle of the suites). *)
+   these combine into C03_progress: for programs whose handlers, filters and hooks do not call Wait or Shutdown, some
+   goroutine can always step in every reachable state whose lock waits are acyclic (the documented exception is a
+   cycle) and in which no goroutine has died of an unrecovered panic; the exception itself is exhibited
+   (C03_self_delivery_exception).  NOT proved: a program-level characterisation of the acyclicity condition (which
+   Sequential handlers can be re-entered by their own publishes); it is checked per observed run by the deadlock
+   oracle of the suites. *)
 From Coq Require Import List Arith Bool.
 Import ListNotations.
 From Ebu Require Import Bus.BusModel Bus.BusInv.
@@ -58,22 +59,28 @@ Theorem C03_shutdown_has_its_waiter : forall P cfg s, reachable P cfg s ->
 Proof. exact shutdown_has_its_waiter. Qed.
 Print Assumptions C03_shutdown_has_its_waiter.
 
-(* PROGRESS (no deadlock), over every schedule of every program: in a reachable state in which
-     H1 the goroutines waiting for handler mutexes do not wait in a cycle (rank decreases along "waits for the holder");
-        the documented exception is exactly such a cycle, see C03_self_delivery_exception,
-     H2 no goroutine sits in Wait, in Shutdown's waiter or select, or has crashed, while it is itself an in-flight
-        delivery or holds a handler mutex (Wait and Shutdown are not among the calls the property lets a handler make),
-   some goroutine can take a step whenever some goroutine is unfinished.  H1 and H2 are hypotheses about the state, not
-   proved invariants of programs; the lemmas above discharge everything else (no orphaned mutex, the store-mutex
-   holder runs, the wait counter counts running deliveries, a pending Shutdown has its waiter, nothing else blocks). *)
-Theorem C03_progress : forall P cfg s, reachable P cfg s ->
+(* in programs whose handlers, filters and hooks do not call Wait or Shutdown (the property lets them publish,
+   subscribe, unsubscribe and clear), a goroutine sitting in Wait / Shutdown is never an in-flight delivery and never
+   holds a handler mutex: these instructions only occur below every delivery frame *)
+Theorem C03_waiting_goroutines_are_outside_handlers : forall P cfg s, Pwf P -> reachable P cfg s ->
+  forall a i rest, assoc_get (code s) a = Some (i :: rest) -> waitish i = true ->
+    weight (i :: rest) = 0 /\ forall rid, held rid (i :: rest) = 0.
+Proof. exact waiting_goroutines_are_outside_handlers. Qed.
+Print Assumptions C03_waiting_goroutines_are_outside_handlers.
+
+(* PROGRESS (no deadlock), over every schedule of every program whose handlers, filters and hooks do not call Wait or
+   Shutdown: in a reachable state in which
+     - the goroutines waiting for handler mutexes do not wait in a cycle (rank decreases along "waits for the holder");
+       the documented exception is exactly such a cycle, see C03_self_delivery_exception, and
+     - no goroutine has died of an unrecovered panic (which in Go ends the whole process),
+   some goroutine can take a step whenever some goroutine is unfinished. *)
+Theorem C03_progress : forall P cfg s, Pwf P -> reachable P cfg s ->
   forall rank : actor -> nat,
   (forall a h rest b, assoc_get (code s) a = Some (ILock h :: rest) -> assoc_get (seqlocks s) (r_id h) = Some b -> rank b < rank a) ->
-  (forall a i rest, assoc_get (code s) a = Some (i :: rest) -> stuckish i = true ->
-     weight (i :: rest) = 0 /\ forall rid, held rid (i :: rest) = 0) ->
-  (exists a i rest, assoc_get (code s) a = Some (i :: rest) /\ i <> ICrashed) ->
+  (forall a rest, assoc_get (code s) a <> Some (ICrashed :: rest)) ->
+  (exists a i rest, assoc_get (code s) a = Some (i :: rest)) ->
   exists b s' ls, mstep P cfg s b = Some (s', ls).
-Proof. exact progress_partial2. Qed.
+Proof. exact progress. Qed.
 Print Assumptions C03_progress.
 
 (* the documented exception: a synchronous Sequential handler publishes an event that is delivered back to itself;
